@@ -37,6 +37,7 @@ REQUIRED = [
     "judged:isolated-free-exact", "judged:one-free-point-one-iteration", "judged:contraction",
     "judged:converged:quad", "judged:converged:hex", "judged:regular-lattice:quad", "judged:regular-lattice:hex",
     "judged:copy-back-shared-point", "judged:grid-vs-faces", "judged:grid-vs-vertices", "judged:written-file",
+    "judged:fixed-after-the-first-smoothing", "late-fix:by-pos", "late-fix:by-idx",
     "judged:default-iterations", "moved:free-point", "stage:second-smooth-call",
 ]
 RULE = (
@@ -410,13 +411,20 @@ def gen_hex_extruded(rng):
     return case
 
 
+def _with_late_fix(rng, case):
+    if rng.random() < 0.3:
+        case["late_fix"] = {"by": rng.choice(["pos", "pos", "idx"]), "picks": [rng.randrange(1000) for _ in range(rng.randint(1, 2))],
+                            "iterations": rng.randint(1, 5)}
+    return case
+
+
 def gen_case(ctx):
     u = ctx.rng.random()
     if u < 0.22:
-        return gen_hex(ctx.rng)
+        return _with_late_fix(ctx.rng, gen_hex(ctx.rng))
     if u < 0.32:
-        return gen_hex_extruded(ctx.rng)
-    return gen_quad(ctx.rng)
+        return _with_late_fix(ctx.rng, gen_hex_extruded(ctx.rng))
+    return _with_late_fix(ctx.rng, gen_quad(ctx.rng))
 
 
 def fixed_cases(tier):
@@ -427,6 +435,9 @@ def fixed_cases(tier):
     P[4] = [1.3, 0.8, 0.0]
     out = [{"kind": "quad", "cls": "structured", "positions": P, "quads": quads, "positions_as": "list",
             "fixmode": "none", "reversed": False, "fix": [], "lattice": lat, "stages": [1]},
+           {"kind": "quad", "cls": "structured", "positions": P, "quads": quads, "positions_as": "list",
+            "fixmode": "none", "reversed": False, "fix": [], "lattice": lat, "stages": [1],
+            "late_fix": {"by": "pos", "picks": [0], "iterations": 3}},
            {"kind": "quad", "cls": "structured", "positions": P, "quads": quads, "positions_as": "ndarray",
             "fixmode": "idx", "reversed": False, "fix": [{"by": "idx", "ids": [4], "as": "list"}], "stages": [None]}]
     dims = [2, 2, 2]
@@ -642,6 +653,37 @@ def _apply_fix(ctx, judge, smoother, fix, to_library_index):
                 smoother.fix_points([])
 
 
+def _late_fix(ctx, case, judge, smoother, read_positions, to_library_index, kind):
+    """history on the long-lived smoother: after the judged smooth() calls some still-free interior nodes are fixed (by their
+    current position, or by index) and smoothing goes on - from then on they must not move by a single bit"""
+    free = sorted(judge.free)
+    if not free or not case.get("late_fix"):
+        return True
+    lf = case["late_fix"]
+    chosen = [free[i % len(free)] for i in lf["picks"]]
+    chosen = sorted(set(chosen))
+    X = read_positions()
+    # a position shared by two nodes would make fixing by position ambiguous
+    if lf["by"] == "pos":
+        for k in chosen:
+            if sum(1 for j in range(len(X)) if float(np.max(np.abs(X[j] - X[k]))) <= 1e-9 * judge.ext) != 1:
+                return True
+        smoother.fix_points([X[k].tolist() for k in chosen])
+    else:
+        smoother.fix_indexes([to_library_index(k) for k in chosen])
+    smoother.smooth(int(lf["iterations"]))
+    Y = read_positions()
+    ctx.count("judged:fixed-after-the-first-smoothing")
+    ctx.count(f"late-fix:by-{lf['by']}")
+    for k in chosen:
+        if not np.array_equal(X[k], Y[k]):
+            ctx.violation(f"fixed-after-smoothing-still-moves:{kind}:by-{'position' if lf['by'] == 'pos' else 'index'}",
+                          f"{judge.describe()}: node {k} was fixed at {X[k].tolist()} after {judge.calls} smooth() call(s); "
+                          f"{lf['iterations']} more iterations moved it to {Y[k].tolist()}")
+            return False
+    return True
+
+
 def _smooth(ctx, judge, smoother, k):
     judge.calls += 1
     if judge.calls == 2:
@@ -758,6 +800,15 @@ def run_quad(ctx, case):
         if not judge.judge(X, si == 0 and k == 1, occ):
             return
 
+    def read_quad():
+        out = np.full((len(P0), 3), np.nan)
+        for i, q in enumerate(quads):
+            for c, node in enumerate(q):
+                out[node] = np.array(sketch.faces[i].point_array, dtype=float)[c]
+        return out
+
+    _late_fix(ctx, case, judge, smoother, read_quad, lambda k: k, "quad")
+
 
 def _sample(case, judge):
     s = {k: v for k, v in case.items() if k not in ("positions", "build_positions", "lattice", "fix", "quads", "hexes")}
@@ -844,6 +895,15 @@ def run_hex(ctx, case):
                     return
         if not judge.judge(X, si == 0 and k == 1):
             return
+
+    def read_hex():
+        VV = np.array([v.position for v in mesh.vertices], dtype=float)
+        return np.array([VV[vert_of[kk]] for kk in range(len(P0))])
+
+    if not _late_fix(ctx, case, judge, smoother, read_hex, lambda k: vert_of[k], "hex"):
+        return
+    if case.get("late_fix") and X is not None:
+        X = read_hex()
     if case.get("write") and X is not None:
         path = util.tmpfile("c15")
         got, err = util.write_outcome(mesh, path)
